@@ -21,6 +21,7 @@ package didjwk
 import (
 	"encoding/base64"
 	"fmt"
+	"github.com/nuts-foundation/nuts-node/crypto/jwx"
 	"github.com/nuts-foundation/nuts-node/vdr/resolver"
 	"reflect"
 
@@ -62,6 +63,10 @@ func (w Resolver) Resolve(id did.DID, _ *resolver.ResolveMetadata) (*did.Documen
 	// Parse the JWK
 	key, err := jwk.ParseKey(encodedJWK)
 	if err != nil {
+		return nil, nil, fmt.Errorf("failed to parse JWK: %w", err)
+	}
+	// converting an EC key (to raw key and back to JWK) panics if a coordinate doesn't fit the curve
+	if err = jwx.ValidateECCoordinates(key); err != nil {
 		return nil, nil, fmt.Errorf("failed to parse JWK: %w", err)
 	}
 
